@@ -37,7 +37,8 @@ CONSTANT Unit
 
 TraceLog == ndJsonDeserialize("trace.ndjson")
 
-VARIABLES l,      \* next line
+VARIABLES ohist,  \* <<tx, blk, unc, gone>> of the other side of the last Copy
+          l,      \* next line
           bad,    \* set of <<clause, subject>> failing after the previous event of this behaviour
           tx,     \* operation kinds since the last transaction boundary
           blk,    \* operation kinds since the last root computation
@@ -45,7 +46,7 @@ VARIABLES l,      \* next line
           gone,   \* validators seen to disappear at a root computation of the current object (a removed record may linger in memory)
           prev,   \* <<obs of the previous event>> or <<>>
           viol, fired
-vars == <<l, bad, tx, blk, unc, gone, prev, viol, fired>>
+vars == <<ohist, l, bad, tx, blk, unc, gone, prev, viol, fired>>
 
 Groups == {"all", "chamber", "house", "c", "s", "h"}
 InGroup(role, g) == \/ g = "all" \/ g = role
@@ -82,21 +83,34 @@ DlgTok(o, a, i) == IF ~o.v[i].ex THEN 0
                    ELSE LET D == { k \in DOMAIN o.v[i].dl : o.v[i].dl[k].a = a } IN SumF([k \in D |-> o.v[i].dl[k].t], D)
 DbalOK(o, a) == o.a[a].dbal = SumF([i \in 1..NVals(o) |-> DlgTok(o, a, i)], 1..NVals(o))
 
-\* the set of <<clause, subject>> failing on event e
-Failing(e) ==
-   LET o == e.obs IN
+\* the set of <<clause, subject>> failing on the projection o of one object
+FailingObs(o) ==
       { <<"StatEqualsRecompute", g>> : g \in { h \in Groups : ~StatOK(o, h) } }
    \cup { <<"TotalsEqualSelfPlusDelegations", VName(i)>> : i \in { j \in 1..NVals(o) : ~TotalsOK(o.v[j]) } }
    \cup { <<"StakeIsTokenDivUnit", VName(i)>> : i \in { j \in 1..NVals(o) : ~StakeOK(o.v[j]) } }
    \cup { <<"IndexEqualsDomain", VName(i)>> : i \in { j \in 1..NVals(o) : ~IndexOK(o, j) } }
    \cup { <<"DelegationLinksAgree", AName(a)>> : a \in { b \in DOMAIN o.a : ~LinksOK(o, b) } }
    \cup { <<"DelegationBalanceAgrees", AName(a)>> : a \in { b \in DOMAIN o.a : ~DbalOK(o, b) } }
+
+\* ... on event e: the object operated on (obs, with the lists the behaviour read), side "m", and -- after a Copy -- the OTHER
+\* side of the copy (oobs), side "o": "for every sequence of ... copies" both states keep matching their own records
+Failing(e) ==
+   LET o == e.obs IN
+   { <<f[1], f[2], "m">> : f \in FailingObs(o)
    \cup (IF "fu" \in DOMAIN e /\ Range(e.fu) # Existing(o) THEN { <<"IndexEqualsDomain", "forUpdate">> } ELSE {})
-   \cup (IF "gv" \in DOMAIN e /\ Range(e.gv) # Existing(o) THEN { <<"IndexEqualsDomain", "getValidators">> } ELSE {})
+   \cup (IF "gv" \in DOMAIN e /\ Range(e.gv) # Existing(o) THEN { <<"IndexEqualsDomain", "getValidators">> } ELSE {}) }
+   \cup (IF "oobs" \in DOMAIN e THEN { <<f[1], f[2], "o">> : f \in FailingObs(e.oobs) } ELSE {})
+\* what was failing before, seen from the sides as they are AFTER event e: Copy makes the original the other side (it inherits
+\* the failures of the object that was operated on); Swap exchanges the sides
+Flip(x) == IF x = "m" THEN "o" ELSE "m"
+BadBefore(e) ==
+   CASE e.ev = "Copy" -> { b \in bad : b[3] = "m" } \cup { <<b[1], b[2], "o">> : b \in { c \in bad : c[3] = "m" } }
+     [] e.ev = "Swap" -> { <<b[1], b[2], Flip(b[3])>> : b \in bad }
+     [] OTHER -> bad
 
 \* ---- discriminators
 Norm(op) == IF op \in {"Root", "Commit", "Reload"} THEN "Root" ELSE op
-Ghosts(f) == { i \in gone : f[2] = VName(i) }
+Ghosts(f) == { i \in gone : f[2] = VName(i) /\ f[3] = "m" }
 Disc(e, f) ==
    LET op == Norm(e.ev) IN
       {op}
@@ -104,6 +118,7 @@ Disc(e, f) ==
    \cup (IF op = "Root" THEN { "blk:" \o o : o \in blk \cap {"Remove"} } ELSE {})
    \cup (IF op = "Copy" /\ unc \cap {"Delegate", "Undelegate"} # {} THEN {"unc:Delegation"} ELSE {})
    \cup (IF Ghosts(f) # {} THEN {"ghost"} ELSE {})
+   \cup (IF f[3] = "o" THEN {"other"} ELSE {})
    \cup (IF f[1] = "Readable" THEN { "after:" \o b[1] : b \in bad } ELSE {})
 
 TxEnd(op)  == op \in {"Finalise", "Root", "Commit", "Reload", "Copy"}
@@ -114,9 +129,9 @@ UncEnd(op) == op \in {"Commit", "Reload"}
 Fresh(cands) == { c \in cands : ~\E x \in viol : x[1] = c[1] /\ x[2] = c[2] }
 
 ZeroFired == [Stat |-> 0, Totals |-> 0, StakeDiv |-> 0, Index |-> 0, Links |-> 0, Dbal |-> 0, Events |-> 0, WithDelegations |-> 0, Reopened |-> 0, Copies |-> 0,
-              Failures |-> 0]
+              OtherSide |-> 0, Failures |-> 0]
 
-Init == /\ l = 1 /\ bad = {} /\ tx = {} /\ blk = {} /\ unc = {} /\ gone = {} /\ prev = <<>>
+Init == /\ ohist = <<{}, {}, {}, {}>> /\ l = 1 /\ bad = {} /\ tx = {} /\ blk = {} /\ unc = {} /\ gone = {} /\ prev = <<>>
         /\ viol = {} /\ fired = ZeroFired
 
 Count(e) ==
@@ -132,26 +147,29 @@ Step ==
    /\ l' = l + 1
    /\ LET e == TraceLog[l] IN
       IF e.ev \in {"reset", "abort"}
-      THEN /\ bad' = {} /\ tx' = {} /\ blk' = {} /\ unc' = {} /\ gone' = {} /\ prev' = <<>>
+      THEN /\ bad' = {} /\ tx' = {} /\ blk' = {} /\ unc' = {} /\ gone' = {} /\ prev' = <<>> /\ ohist' = <<{}, {}, {}, {}>>
            /\ UNCHANGED <<viol, fired>>
       ELSE
-        /\ tx'  = IF TxEnd(e.ev)  THEN {} ELSE tx \cup {e.ev} \cup (IF "forced" \in DOMAIN e THEN {"ForcedOffline"} ELSE {})
-        /\ blk' = IF BlkEnd(e.ev) THEN {} ELSE blk \cup {e.ev}
-        /\ unc' = IF UncEnd(e.ev) THEN {} ELSE unc \cup {e.ev}
+        /\ tx'  = IF e.ev = "Swap" THEN ohist[1] ELSE IF TxEnd(e.ev)  THEN {} ELSE tx \cup {e.ev} \cup (IF "forced" \in DOMAIN e THEN {"ForcedOffline"} ELSE {})
+        /\ blk' = IF e.ev = "Swap" THEN ohist[2] ELSE IF BlkEnd(e.ev) THEN {} ELSE blk \cup {e.ev}
+        /\ unc' = IF e.ev = "Swap" THEN ohist[3] ELSE IF UncEnd(e.ev) THEN {} ELSE unc \cup {e.ev}
+        /\ ohist' = IF e.ev \in {"Swap", "Copy"} THEN <<tx, blk, unc, gone>> ELSE ohist
         /\ IF "blind" \in DOMAIN e
            THEN \* the driver was told not to read the state after this operation (reads fill lazy caches): nothing to judge
-                UNCHANGED <<bad, gone, prev, viol, fired>>
+                (IF e.ev \in {"Swap", "Copy"} THEN bad' = BadBefore(e) /\ gone' = (IF e.ev = "Swap" THEN ohist[4] ELSE {}) /\ prev' = <<>> /\ UNCHANGED <<viol, fired>>
+                                 ELSE UNCHANGED <<bad, gone, prev, viol, fired>>)
            ELSE IF "obs" \notin DOMAIN e
            THEN \* the operation or a getter panicked: nothing can be read any more (the driver ends the behaviour here)
-                /\ viol' = viol \cup Fresh({ <<"Readable", Disc(e, <<"Readable", "state">>), l>> })
+                /\ viol' = viol \cup Fresh({ <<"Readable", Disc(e, <<"Readable", "state", "m">>), l>> })
                 /\ fired' = [fired EXCEPT !.Failures = @ + 1]
                 /\ UNCHANGED <<bad, gone, prev>>
            ELSE LET F == Failing(e) IN
-                /\ viol' = viol \cup Fresh({ <<f[1], Disc(e, f), l>> : f \in F \ bad })
+                /\ viol' = viol \cup Fresh({ <<f[1], Disc(e, f), l>> : f \in F \ BadBefore(e) })
                 /\ bad' = F
-                /\ fired' = [Count(e) EXCEPT !.Failures = @ + Cardinality(F \ bad)]
-                /\ prev' = <<e.obs>>
-                /\ gone' = IF e.ev \in {"Reload", "Copy"} THEN {}
+                /\ fired' = [Count(e) EXCEPT !.Failures = @ + Cardinality(F \ BadBefore(e)),
+                                             !.OtherSide = @ + (IF "oobs" \in DOMAIN e THEN 1 ELSE 0)]
+                /\ prev' = IF e.ev = "Swap" THEN <<>> ELSE <<e.obs>>
+                /\ gone' = IF e.ev = "Swap" THEN ohist[4] ELSE IF e.ev \in {"Reload", "Copy"} THEN {}
                            ELSE IF Norm(e.ev) = "Root" /\ prev # <<>>
                                 THEN gone \cup { i \in 1..NVals(e.obs) : /\ (prev[1].v[i].ex \/ i \in Range(prev[1].ix))
                                                                         /\ ~e.obs.v[i].ex /\ i \notin Range(e.obs.ix) }
